@@ -232,7 +232,7 @@ class Session:
             'got': [], 'dirty': not self.default_config, 'state': 'open'}
         return {'h': op['h']}
 
-    def _advance(self, h, n):
+    def _advance(self, h, n, fault=None):
         ent = self.gens.get(h)
         rec = {'h': h}
         if ent is None or ent['state'] != 'open':
@@ -241,14 +241,28 @@ class Session:
         if not self.default_config:
             ent['dirty'] = True
         cnt = 0
+        armed = False
+        if fault and fault.get('kind') == 'interrupt':
+            self.tracer.arm(fault['at'])
+            armed = True
         try:
-            while n is None or cnt < n:
-                s = next(ent['gen'])
-                ent['got'].append(
-                    canon.digest([canon.dump_tree(s), s.get_type()])[0])
-                cnt += 1
+            try:
+                while n is None or cnt < n:
+                    s = next(ent['gen'])
+                    ent['got'].append(
+                        canon.digest([canon.dump_tree(s),
+                                      s.get_type()])[0])
+                    cnt += 1
+            finally:
+                if armed:
+                    self.tracer.disarm()
         except StopIteration:
             ent['state'] = 'exhausted'
+        except SimInterrupt:
+            # an asynchronous exception kills the pipeline mid-statement
+            ent['state'] = 'interrupted'
+            self.stat('interrupt_fired')
+            self.stat('interrupt_in_lazy_pipeline')
         except SimDeadlock as e:
             ent['state'] = 'raised'
             ent['exc'] = {'k': 'exc', 't': 'DEADLOCK', 'm': str(e)}
@@ -261,7 +275,7 @@ class Session:
         return rec
 
     def op_gen_next(self, op):
-        return self._advance(op['h'], op.get('n', 1))
+        return self._advance(op['h'], op.get('n', 1), op.get('fault'))
 
     def op_gen_finish(self, op):
         return self._advance(op['h'], None)
